@@ -35,7 +35,10 @@
 using namespace bfl;
 
 static FILE* OUT = nullptr;
-static const std::chrono::milliseconds TIMEOUT(2000);
+// time-out for "the thread arrives at its next schedule point" and for wait(): 2 s nominal; a case that
+// times out is run once more on a fresh object with 10 s before it is reported (starved machine)
+static std::chrono::milliseconds TIMEOUT(2000);
+static const std::chrono::milliseconds TIMEOUT_NOMINAL(2000), TIMEOUT_RETRY(10000);
 
 // ---------------------------------------------------------------- session (one per case)
 struct Session {
@@ -227,17 +230,35 @@ struct WordRun {
 
 static int g_hangs = 0;
 
+static bool word_attempt(const vf::Case& c, bool last_attempt, int retried);
+
 static void run_word(const vf::Case& c) {
     std::fprintf(OUT, "out %s\n", c.id.c_str());
     if (g_hangs >= 3) { std::fprintf(OUT, "int skipped 1\nend\n"); std::fflush(OUT); return; }
+    TIMEOUT = TIMEOUT_NOMINAL;
+    if (!word_attempt(c, false, 0)) {
+        TIMEOUT = TIMEOUT_RETRY;
+        word_attempt(c, true, 1);
+        TIMEOUT = TIMEOUT_NOMINAL;
+    }
+}
+
+// returns false if the attempt timed out somewhere and was not reported (to be retried)
+static bool word_attempt(const vf::Case& c, bool last_attempt, int retried) {
     Session* S = new Session();
     g_session = S;
     Probe* P = new Probe(S);
     WordRun R{S, P, "?", false};
     std::vector<std::string> observations;
+    // commands issued before boot(): the thread does not exist yet (reported as location 1, its first point)
+    R.loc = "1";
+    observations.push_back(R.obs());
+    for (const std::string& t : c.word("pre")) {
+        if (t != "T" && t != "F" && t != "Wait") R.command(t);
+        observations.push_back(R.obs());
+    }
     { vf::Entry e("FilteringAlgorithm::boot"); P->boot(); }
     R.arrive(0);
-    observations.push_back(R.obs());
     for (const std::string& t : c.word("w")) {
         if (t == "T") R.thread_move(true);
         else if (t == "F") R.thread_move(false);
@@ -261,9 +282,12 @@ static void run_word(const vf::Case& c) {
     S->set_free();
     int r = g_joiner.timed_wait(P);
     if (r == 1) { S->ev("wait"); exited = 1; }
+    bool timed_out = !exited || stuck_in_word || R.loc == "stuck";
+    if (timed_out && !last_attempt) { g_session = nullptr; return false; }   // abandoned; retried with the long time-out
     std::vector<std::string> trace;
     { std::lock_guard<std::mutex> lk(S->logm); trace = S->log; }
     trace.insert(trace.begin(), "|");
+    std::fprintf(OUT, "int retried %d\n", retried);
     put_word("obs", observations);
     put_word("end_loc", std::vector<std::string>{end_loc});
     put_word("trace", trace);
@@ -276,12 +300,24 @@ static void run_word(const vf::Case& c) {
     if (exited) { delete P; delete S; }
     else { ++g_hangs; /* the object and its blocked thread are abandoned */ }
     g_session = nullptr;
+    return true;
 }
 
 // ---------------------------------------------------------------- free-running stress
+static bool stress_attempt(const vf::Case& c, bool last_attempt, int retried);
+
 static void run_stress(const vf::Case& c) {
     std::fprintf(OUT, "out %s\n", c.id.c_str());
     if (g_hangs >= 3) { std::fprintf(OUT, "int skipped 1\nend\n"); std::fflush(OUT); return; }
+    TIMEOUT = TIMEOUT_NOMINAL;
+    if (!stress_attempt(c, false, 0)) {
+        TIMEOUT = TIMEOUT_RETRY;
+        stress_attempt(c, true, 1);
+        TIMEOUT = TIMEOUT_NOMINAL;
+    }
+}
+
+static bool stress_attempt(const vf::Case& c, bool last_attempt, int retried) {
     Session* S = new Session();
     S->mode.store(Session::Stress);
     S->pfalse = (int)c.mi("pfalse", 0);
@@ -312,6 +348,8 @@ static void run_stress(const vf::Case& c) {
     { std::lock_guard<std::mutex> lk(S->logm); P->teardown(); S->log.push_back("teardown"); }
     int r = g_joiner.timed_wait(P);
     int exited = (r == 1) ? 1 : 0;
+    if (!exited && !last_attempt) { g_session = nullptr; return false; }
+    std::fprintf(OUT, "int retried %d\n", retried);
     std::vector<std::string> trace;
     {
         std::lock_guard<std::mutex> lk(S->logm);
@@ -328,6 +366,7 @@ static void run_stress(const vf::Case& c) {
     std::fflush(OUT);
     if (exited) { delete P; delete S; } else { ++g_hangs; }
     g_session = nullptr;
+    return true;
 }
 
 int main() {
